@@ -770,11 +770,47 @@ def calls_to_pyops(calls, env: SqlEnv, latest: int):
     return out
 
 
-def one_upgrade(cls, tables: Tables, rename, db_name=None):
+def record_all(cls, db_name=None):
+    return {v: record_check(cls, v, db_name) for v in range(0, cls.LATEST_DB_VERSION + 1)}
+
+
+def discover_tables(seqs, tables: Tables, rename):
+    """number the tables and note their columns / keys from every CREATE TABLE the recorded calls contain
+    (no assumption on where in a script they stand)"""
+    for v in sorted(seqs):
+        for c in seqs[v]:
+            if c[0] == "commit":
+                continue
+            for st in c[1].split(";"):
+                if re.match(r"\s*CREATE\b", st, re.I):
+                    name, cols, pk = parse_create(_ws(st))
+                    lname = (rename or {}).get(name, name)
+                    tables.tid(lname)
+                    if lname in tables.cols and tables.cols[lname] != cols:
+                        raise Unsupported("table %s created with two different column lists" % lname)
+                    tables.cols[lname] = cols
+                    tables.pk[lname] = [cols.index(x) for x in pk]
+
+
+def insert_targets(cls, tables: Tables, names):
+    """(OR IGNORE, table) of every insert_* method, in source order; read off the INSERT text in its source"""
+    import inspect
+    out = []
+    meths = [(n, f) for n, f in vars(cls).items() if n.startswith("insert_") and callable(f)]
+    for n, f in sorted(meths, key=lambda nf: nf[1].__code__.co_firstlineno):
+        src = " ".join(inspect.getsource(f).replace('"', " ").replace("'", " ").split())
+        m = re.search(r"INSERT (OR IGNORE )?INTO (\{self\.db_name\}|\w+)", src, re.I)
+        if not m:
+            raise Unsupported("%s.%s: no INSERT statement found" % (cls.__name__, n))
+        t = "<db_name>" if m.group(2).startswith("{") else m.group(2)
+        if t not in tables.ids:
+            raise Unsupported("%s.%s inserts into unknown table %s" % (cls.__name__, n, t))
+        out.append("(%s, %d)" % ("true" if m.group(1) else "false", tables.ids[t]))
+    return out
+
+
+def one_upgrade(cls, seqs, tables: Tables, rename):
     latest = cls.LATEST_DB_VERSION
-    seqs = {v: record_check(cls, v, db_name) for v in range(0, latest + 1)}
-    if seqs[0] != seqs[latest]:
-        raise Unsupported("%s.check_database treats an unversioned file differently from a current one" % cls.__name__)
     tail_calls = seqs[latest]
     ups = []
     for v in range(latest - 1, 0, -1):
@@ -787,9 +823,9 @@ def one_upgrade(cls, tables: Tables, rename, db_name=None):
     for v, calls in ups:
         env = SqlEnv(tables, rename)
         out_ups.append("(%d, [%s])" % (v, "; ".join(calls_to_pyops(calls, env, latest))))
-    env = SqlEnv(tables, rename)
-    tail = calls_to_pyops(tail_calls, env, latest)
-    return latest, out_ups, tail, {v: [list(c) for c in calls] for v, calls in ups}
+    tail = calls_to_pyops(tail_calls, SqlEnv(tables, rename), latest)
+    fresh = calls_to_pyops(seqs[0], SqlEnv(tables, rename), latest)
+    return latest, fresh, out_ups, tail, {v: [list(c) for c in calls] for v, calls in ups}
 
 
 def generate_upgrade(repo=None):
@@ -799,25 +835,20 @@ def generate_upgrade(repo=None):
     import ipv8
     if not os.path.abspath(ipv8.__file__).startswith(os.path.abspath(repo) + os.sep):
         raise Unsupported("ipv8 imported from %s, not from %s" % (ipv8.__file__, repo))
-    # same table numbering as G19_db.v
+    # independent of the shape checks of generate(): tables are numbered option = 0, then in order of their first
+    # CREATE TABLE in the recorded scripts (identity first) - the same numbers generate() gives on the shipped tree
     tables = Tables()
-    idb = IdentityDatabase.__new__(IdentityDatabase)
-    wdb = AttestationsDB.__new__(AttestationsDB)
-    wdb.db_name = "vdbname"
-    _, _, i_ins, _, _, _ = one_db(repo, IDENTITY, "IdentityDatabase", idb, tables, {}, {})
-    _, _, w_ins, _, _, _ = one_db(repo, WALLET, "AttestationsDB", wdb, tables,
-                                  {"self.db_name": "<db_name>"}, {"vdbname": "<db_name>"})
-    i_latest, i_ups, i_tail, i_raw = one_upgrade(IdentityDatabase, tables, {})
-    w_latest, w_ups, w_tail, w_raw = one_upgrade(AttestationsDB, tables, {"vdbname": "<db_name>"}, "vdbname")
-
-    def ins(fs):
-        out = []
-        for f in fs:
-            m = re.fullmatch(r"OExec (true|false) (\d+)", f[0]) if f else None
-            if not m:
-                raise Unsupported("insert function shape")
-            out.append("(%s, %s)" % (m.group(1), m.group(2)))
-        return "[" + "; ".join(out) + "]"
+    w_rename = {"vdbname": "<db_name>"}
+    i_seqs = record_all(IdentityDatabase)
+    w_seqs = record_all(AttestationsDB, "vdbname")
+    discover_tables(i_seqs, tables, {})
+    discover_tables(w_seqs, tables, w_rename)
+    if tables.cols.get("option") != ["key", "value"] or tables.pk.get("option") != [0]:
+        raise Unsupported("option table is not (key PRIMARY KEY, value)")
+    i_ins = insert_targets(IdentityDatabase, tables, {})
+    w_ins = insert_targets(AttestationsDB, tables, {})
+    i_latest, i_fresh, i_ups, i_tail, i_raw = one_upgrade(IdentityDatabase, i_seqs, tables, {})
+    w_latest, w_fresh, w_ups, w_tail, w_raw = one_upgrade(AttestationsDB, w_seqs, tables, w_rename)
 
     def lst(xs):
         return "[" + "; ".join(xs) + "]"
@@ -825,7 +856,8 @@ def generate_upgrade(repo=None):
     ident = lambda n: "TID_" + re.sub(r"\W", "", n.replace("<db_name>", "wallet"))
     out = ["(* GENERATED by tools/tr/tr_db.py (generate_upgrade) from %s, %s - do not edit *)" % (IDENTITY, WALLET),
            "(* check_database of every shipped Database subclass, recorded call by call (execute / executescript /",
-           "   commit) for a file of each older version, each call split into its SQL statements. *)",
+           "   commit) for a file without a version (first open) and of each version, each call split into its SQL",
+           "   statements. *)",
            "From Coq Require Import ZArith List Bool.",
            "From IPV8V Require Import model.M19_sqltx.",
            "Import ListNotations.", "Open Scope Z_scope.", ""]
@@ -836,12 +868,15 @@ def generate_upgrade(repo=None):
     for text, v in lits.items():
         out.append("Definition LIT_%s : Z := %d.   (* '%s' *)" % (re.sub(r"\W", "_", text), v, text))
     out += ["",
-            "Definition identity_ucfg : ucfg :=\n  mkU %d\n    %s\n    %s\n    %s." % (i_latest, lst(i_ups), lst(i_tail), ins(i_ins)),
+            "Definition identity_ucfg : ucfg :=\n  mkU %d\n    %s\n    %s\n    %s\n    %s."
+            % (i_latest, lst(i_fresh), lst(i_ups), lst(i_tail), lst(i_ins)),
             "",
-            "Definition wallet_ucfg : ucfg :=\n  mkU %d\n    %s\n    %s\n    %s." % (w_latest, lst(w_ups), lst(w_tail), ins(w_ins)),
+            "Definition wallet_ucfg : ucfg :=\n  mkU %d\n    %s\n    %s\n    %s\n    %s."
+            % (w_latest, lst(w_fresh), lst(w_ups), lst(w_tail), lst(w_ins)),
             ""]
     meta = {"table_ids": dict(tables.ids), "literals": dict(lits), "identity_upgrade_calls": i_raw, "wallet_upgrade_calls": w_raw,
-            "identity_latest": i_latest, "wallet_latest": w_latest}
+            "identity_latest": i_latest, "wallet_latest": w_latest,
+            "table_shapes": {n: {"pk": tables.pk[n], "ncols": len(tables.cols[n])} for n in tables.cols}}
     return "\n".join(out), meta
 
 
